@@ -13,6 +13,7 @@ CONSTANTS
   MaxMsgs = 100000
   Blocked = {"mod"}
   Quirks = {}
+  DiagLine = 0
 INVARIANTS C05_Backed C05_Bounds NoNegBal C17_TraceOnlyForVesting
 PROPERTIES Rejected Conserved C06_Lock C06_WithdrawnOnlyAfter C06_WithdrawExact C18_WithdrawEvents C07_Exact C08_Send C08_Create C09_NoOverwrite C17_Lineage
 CONSTRAINT TraceConstraint
